@@ -579,6 +579,11 @@ class Gen:
                         v = self.value_for(f, x)
                         if v is not None and v[0] != 'n':
                             vs.append(v[0])
+                if kind != 'discard' and cur and rng.random() < .15:
+                    # elements the collection holds, then one value it cannot take: the call is refused as a whole
+                    bad = self.value_for(f, x, False)
+                    if bad is not None:
+                        vs = [w.tok(v) for v in rng.sample(cur, min(len(cur), rng.randint(1, 2)))] + [bad[0]]
                 if (kind == 'discard' and not vs) or len(set(vs)) != len(vs):
                     continue
                 if 'x:dict' in vs and kind not in ('symupd', 'ixor', 'ior'):
